@@ -488,12 +488,24 @@ func init() {
 		Run: func(c *Ctx) []Obligation {
 			return runDominatingRestore(c, "PAIR.load-package", "lisp.(*LEnv).load", "lisp.Runtime.Package")
 		}})
+
+	register(&Rule{ID: "PAIR.loader-package", Floor: 1,
+		Doc: "the Loader that TextLoader returns — the remaining `evaluate this source text` entry point that does not go through load — saves Runtime.Package and restores it by a defer that dominates every evaluation of a form of the stream: an in-package in the text does not leak to the code that runs the loader",
+		Run: func(c *Ctx) []Obligation {
+			return runDominatingRestoreIn(c, "PAIR.loader-package", "lisp.TextLoader", "lisp.Runtime.Package", true)
+		}})
 }
 
 // runDominatingRestore: in function fname a `defer func(){ <path to field> = saved }()`
 // with `saved := <same path>` before it must dominate every call of the
 // evaluator (eval-like callee) in that function.
 func runDominatingRestore(c *Ctx, rule, fname, field string) []Obligation {
+	return runDominatingRestoreIn(c, rule, fname, field, false)
+}
+
+// inLit: the evaluation happens in the closure the function returns (the first
+// function literal that calls the evaluator), not in the function's own body.
+func runDominatingRestoreIn(c *Ctx, rule, fname, field string, inLit bool) []Obligation {
 	fn, fd, pkg := c.LookupFunc(fname)
 	fld := c.LookupField(field)
 	if fn == nil || fld == nil {
@@ -501,7 +513,26 @@ func runDominatingRestore(c *Ctx, rule, fname, field string) []Obligation {
 	}
 	u := FuncUnit{fn, fd, pkg}
 	info := pkg.TypesInfo
-	fc := c.cfgOf(u, nil)
+	var lit *ast.FuncLit
+	if inLit {
+		evalLike := c.evalLikeSet()
+		ast.Inspect(fd.Body, func(n ast.Node) bool {
+			fl, ok := n.(*ast.FuncLit)
+			if !ok || lit != nil {
+				return true
+			}
+			for _, ce := range callsIn(fl.Body, false) {
+				if f := originOf(Callee(info, ce)); f != nil && evalLike[f] {
+					lit = fl
+				}
+			}
+			return true
+		})
+		if lit == nil {
+			return []Obligation{mkOb(c, rule, u, "no evaluating closure found", fd, Undecided, "expected "+fname+" to return a closure that evaluates", false)}
+		}
+	}
+	fc := c.cfgOf(u, lit)
 	// find restoring defers
 	type rd struct {
 		loc Loc
